@@ -3,6 +3,8 @@ package c02
 
 import (
 	"math/rand"
+	mrand "math/rand"
+	"strconv"
 
 	"github.com/sergeii/swat4master/pkg/gamespy/crypt"
 	"github.com/sergeii/swat4master/verifharness/internal/core"
@@ -76,6 +78,16 @@ func gen(rng *rand.Rand, tier core.Tier, emit core.Emit) {
 }
 
 func exec(op string, args []string) []string {
+	// encs <seed> <secret> <challenge> <plaintext>: the same with the process-wide math/rand source seeded first, so that
+	// the 23 header draws of this call are reproducible (corpus cases that reach rare branches of the key setup)
+	if (op == "encs" || op == "encscan") && len(args) == 4 {
+		seed, err := strconv.ParseInt(args[0], 10, 64)
+		if err != nil {
+			return []string{"bad-op"}
+		}
+		mrand.Seed(seed) // nolint: staticcheck
+		op, args = "enc", args[1:]
+	}
 	if op != "enc" || len(args) != 3 {
 		return []string{"bad-op"}
 	}
